@@ -343,10 +343,17 @@ def build_replay(unit, repo, outdir):
         objdir = os.path.join(outdir, 'libobj')
         os.makedirs(objdir, exist_ok=True)
         srcs = []
+        try:
+            listed_ = open(os.path.join(repo, 'src', 'Makefile.am')).read()       # the library's own source list
+        except OSError:
+            listed_ = None
         for root_, dirs_, files_ in os.walk(os.path.join(repo, 'src')):
             dirs_[:] = [d for d in dirs_ if not d.startswith('.')]
             for fn_ in files_:
                 if fn_.endswith('.cc'):
+                    rel_ = os.path.relpath(os.path.join(root_, fn_), os.path.join(repo, 'src'))
+                    if listed_ is not None and rel_ not in listed_:
+                        continue                                                   # stray programs (src/storage/realtest.cc has its own main)
                     srcs.append(os.path.join(root_, fn_))
         def cc_one(src_):
             obj_ = os.path.join(objdir, re.sub(r'\W+', '_', os.path.relpath(src_, repo)) + '.o')
